@@ -5,6 +5,11 @@ import json, os
 HERE = os.path.dirname(os.path.dirname(os.path.abspath(__file__)))
 
 CHECKS = {
+ "C15": dict(
+    design="DESIGN.md §3 C15",
+    technique="model-based (stateful) property-based testing: Hypothesis-generated operation histories interpreted against a plain-dict reference model with an invariant after every step; exhaustive enumeration of short continuations; hash-seed replay in fresh subprocesses",
+    text="Exploration: histories of 4-30 derivation and evolution operations (primitive customisation, customize, child_attrs / child_attrs_all, Array / Iterable / unwrapped arrays, Mandatory, subclassing, append_field / insert_field) over a pool of models; after every step every pooled model (attributes, ordered fields, parents, validation verdicts on probe sets) is compared by value with a reference model updated by the documented effect of the step: the new type carries exactly the requested constraints, every other model is unchanged except for the documented propagation of added fields to customized variants; at the end field order in type info, schema sequence and XML/JSON output is compared and the history is replayed under three PYTHONHASHSEED values in fresh interpreters. All 2-step (thorough: 3-step) continuations over a 24-operation alphabet are enumerated exhaustively. Held on everything explored; not a proof.",
+    note="Trusted: the reference model (Machine) in pbt/props/c15.py. Adding fields to a customized variant (rather than to the class itself) is outside the domain: its effect on sibling variants is undocumented."),
  "C10": dict(
     design="DESIGN.md §3 C10",
     technique="mutation-based fuzzing driven by Hypothesis over generated valid requests (exhaustive prefix truncation, byte edits, structure-aware mutants); oracle: nothing escapes, reply is normal or a Client-family fault, no user function ran on a fault",
